@@ -363,18 +363,31 @@ theorem Grows_mapBody (s : Sess) (g : List Node → List Node) :
   ⟨⟨SkelLe.refl _, by simp only [skel_mapNodesBlocks]; exact List.Sublist.refl _, SkelLe.refl _, rfl, rfl⟩,
    List.prefix_refl _, List.prefix_refl _, List.prefix_refl _, List.prefix_refl _, rfl, rfl, Nat.le_refl _, Nat.le_refl _⟩
 
-theorem Grows_nestedReplace (s : Sess) (insId newText : Str) (comment : Option Str) :
-    Grows s (nestedReplace s insId newText comment).1 := by
+theorem Grows_mapPart (s : Sess) (pi : Nat) (g : List Node → List Node) :
+    Grows s { s with doc := modPart s.doc pi (mapNodesBlocks g) } := by
+  obtain ⟨h1, h2, h3, h4, _, _, _⟩ := modPart_fields s.doc pi (mapNodesBlocks g)
+  exact ⟨DocLe_modPart s.doc pi _ (fun bs => by rw [skel_mapNodesBlocks]; exact List.Sublist.refl _),
+    by simp [h1], by simp [h2], by simp [h3], by simp [h4], rfl, rfl, Nat.le_refl _, Nat.le_refl _⟩
+
+theorem Grows_nestedIns (s : Sess) (text : Str) (style : Option Run) (comment : Option Str) :
+    Grows s (nestedIns s text style comment).1 := by
+  unfold nestedIns
+  split
+  · exact Grows_newRev s
+  · exact Grows_trackInsert _ _ _ _ _ _ _
+
+theorem Grows_nestedReplace (s : Sess) (pi : Nat) (insId newText : Str) (comment : Option Str) :
+    Grows s (nestedReplace s pi insId newText comment).1 := by
   unfold nestedReplace
-  have hr : Grows s { s with doc := { s.doc with body := (rejectChange insId s.doc.body).1 } } := Grows_mapBody s _
+  have hr : Grows s { s with doc := modPart s.doc pi fun bs => (rejectChange insId bs).1 } := Grows_mapPart s pi _
   split
   · exact Grows.refl s
   · simp only
     repeat' first
       | exact hr
-      | exact hr.trans (Grows_trackInsert _ _ _ _ _ _ _)
-      | exact (hr.trans (Grows_trackInsert _ _ _ _ _ _ _)).trans (Grows_modPara _ _ _ (fun p => ⟨rfl, rfl⟩))
-      | exact ((hr.trans (Grows_trackInsert _ _ _ _ _ _ _)).trans (Grows_addComment _ _ _)).trans
+      | exact hr.trans (Grows_nestedIns _ _ _ _)
+      | exact (hr.trans (Grows_nestedIns _ _ _ _)).trans (Grows_modPara _ _ _ (fun p => ⟨rfl, rfl⟩))
+      | exact ((hr.trans (Grows_nestedIns _ _ _ _)).trans (Grows_addComment _ _ _)).trans
           (Grows_modPara _ _ _ (fun p => ⟨rfl, rfl⟩))
       | split
 
@@ -405,7 +418,7 @@ theorem Grows_applyIndexed (s : Sess) (clean : Bool) (start len : Nat) (newText 
   split
   · exact Grows.refl s
   · split
-    · exact Grows_nestedReplace _ _ _ _
+    · exact Grows_nestedReplace _ _ _ _ _
     · split
       · exact Grows_applyInsertion _ _ _ _ _
       · exact Grows_applyReplace _ _ _ _ _ _ _
